@@ -246,6 +246,22 @@ def lib_ct_byte_eq(run, st, args, ins):
     return dom.ite(st, c, run.mk_int(1, 64), run.mk_int(0, 64), 64, True)
 
 
+def lib_ct_eq(run, st, args, ins):
+    """subtle.ConstantTimeEq(x, y int32) int"""
+    x, y = args
+    c = run.int_cmp("==", x, y, True)
+    return run.dom.ite(st, c, run.mk_int(1, 64), run.mk_int(0, 64), 64, True)
+
+
+def lib_ct_select(run, st, args, ins):
+    """subtle.ConstantTimeSelect(v, x, y int) int: x if v == 1, y if v == 0 (undefined otherwise: obligation)"""
+    v, x, y = args
+    is1 = run.int_cmp("==", v, run.mk_int(1, 64), True)
+    is0 = run.int_cmp("==", v, run.mk_int(0, 64), True)
+    st.oblige("pre", ins.get("pos", ""), mk_or(is0, is1), "ConstantTimeSelect is called with v in {0,1}")
+    return run.dom.ite(st, is1, x, y, 64, True)
+
+
 def lib_ct_compare(run, st, args, ins):
     x, y = args
     dom = run.dom
@@ -285,6 +301,8 @@ LIB = {
     "(encoding/binary.littleEndian).Uint64": lib_le_uint64,
     "(encoding/binary.littleEndian).PutUint64": lib_le_putuint64,
     "crypto/subtle.ConstantTimeByteEq": lib_ct_byte_eq,
+    "crypto/subtle.ConstantTimeEq": lib_ct_eq,
+    "crypto/subtle.ConstantTimeSelect": lib_ct_select,
     "crypto/subtle.ConstantTimeCompare": lib_ct_compare,
     "errors.New": lib_errors_new,
 }
